@@ -156,6 +156,25 @@ impl W {
         self.nl();
         self.w("}");
       }
+      "mor3" => {
+        self.w("match (G.mk(sel, ");
+        self.expr(&t["scrut"]);
+        self.w("), 0) {");
+        self.indent += 1;
+        self.nl();
+        self.w("(U(");
+        self.id(Self::s(t, "x"));
+        self.w("), _) | (V(");
+        self.id(Self::s(t, "x"));
+        self.w(") | W(");
+        self.id(Self::s(t, "x"));
+        self.w("), _) -> ");
+        self.expr(&t["body"]);
+        self.w(",");
+        self.indent -= 1;
+        self.nl();
+        self.w("}");
+      }
       "ifl" => {
         self.w("if let Some(");
         self.id(Self::s(t, "x"));
@@ -260,6 +279,14 @@ class E(A(int), B(int)) {
   }
 }
 
+class G(U(int), V(int), W(int)) {
+  function mk(sel: int, n: int): G = {
+    let s = sel + n;
+    let r = s % 3;
+    if r == 0 { G.U(n) } else if r == 1 { G.V(n) } else { G.W(n) }
+  }
+}
+
 class P(val aa: int, val bb: int) {}
 
 class T {
@@ -348,28 +375,50 @@ fn loc_json(l: &Location) -> Value {
   json!([l.start.0, l.start.1, l.end.0, l.end.1])
 }
 
-/// [l, c, l, c] of the definition, [] when there is none, ["panic", msg] never compares equal
-fn def_at(ws: &Ws, m: &ModuleReference, line: u32, col: u32) -> Value {
-  match guarded(|| query::definition_location(&ws.state, m, Position(line, col))) {
-    Ok(Some(l)) if l.module_reference == *m => loc_json(&l),
-    Ok(Some(l)) => json!([l.start.0, l.start.1, l.end.0, l.end.1, -1]),
-    Ok(None) => json!([]),
-    Err(p) => json!([-1, -1, -1, -1, p]),
+/// answers are recorded as [l, c, l, c]; a location in another module as [-2, -2, -2, -2];
+/// a panic as [-1, -1, -1, -1] plus an entry in `panics`
+fn loc_in(l: &Location, m: &ModuleReference) -> Value {
+  if l.module_reference == *m {
+    loc_json(l)
+  } else {
+    json!([-2, -2, -2, -2])
   }
 }
 
-fn refs_at(ws: &Ws, m: &ModuleReference, line: u32, col: u32) -> Value {
+/// [l, c, l, c] of the definition, [] when there is none
+fn def_at(ws: &Ws, m: &ModuleReference, line: u32, col: u32, panics: &mut Vec<String>) -> Value {
+  match guarded(|| query::definition_location(&ws.state, m, Position(line, col))) {
+    Ok(Some(l)) => loc_in(&l, m),
+    Ok(None) => json!([]),
+    Err(p) => {
+      panics.push(format!("definition_location({line},{col}): {p}"));
+      json!([-1, -1, -1, -1])
+    }
+  }
+}
+
+fn refs_at(ws: &Ws, m: &ModuleReference, line: u32, col: u32, panics: &mut Vec<String>) -> Value {
   match guarded(|| query::all_references(&ws.state, m, Position(line, col))) {
-    Ok(v) => json!(v
-      .iter()
-      .map(|l| if l.module_reference == *m { loc_json(l) } else { json!([l.start.0, l.start.1, l.end.0, l.end.1, -1]) })
-      .collect::<Vec<_>>()),
-    Err(p) => json!([[-1, -1, -1, -1, p]]),
+    Ok(v) => json!(v.iter().map(|l| loc_in(l, m)).collect::<Vec<_>>()),
+    Err(p) => {
+      panics.push(format!("all_references({line},{col}): {p}"));
+      json!([[-1, -1, -1, -1]])
+    }
   }
 }
 
 fn rename_at(ws: &mut Ws, m: &ModuleReference, line: u32, col: u32, new_name: &str) -> Result<Option<String>, String> {
   guarded(|| rewrite::rename(&mut ws.state, m, Position(line, col), new_name))
+}
+
+/// digest of a text (FNV-1a, 64 bit): texts are compared by the specification through their digests
+fn digest(t: &str) -> String {
+  let mut h: u64 = 0xcbf29ce484222325;
+  for b in t.as_bytes() {
+    h ^= *b as u64;
+    h = h.wrapping_mul(0x100000001b3);
+  }
+  format!("{h:016x}")
 }
 
 /// position (line, byte col) of the first whole-word occurrence of `word` in `text`
@@ -391,6 +440,7 @@ fn find_word(text: &str, word: &str) -> Option<(u32, u32)> {
   None
 }
 
+/// {"opt<b>": {"status", "out": [lines], "end"}} for every requested build (WebAssembly back end)
 fn run_text(sources: &BTreeMap<String, String>, entry: &str, builds: &[u8], with_std: bool) -> Value {
   let mut out = serde_json::Map::new();
   for b in builds {
@@ -409,8 +459,8 @@ fn run_text(sources: &BTreeMap<String, String>, entry: &str, builds: &[u8], with
 }
 
 /// What the property says about one renamed document `new_text` of module `mname`:
-/// parses, diagnostics (modulo the name), behaviour, and the text renaming back yields.
-#[allow(clippy::too_many_arguments)]
+/// parses, diagnostics (modulo the name), behaviour, and the text renaming back yields
+/// (`back`: digest of that text, or why there is none).
 fn judge_renamed(
   sources: &BTreeMap<String, String>,
   mname: &str,
@@ -418,11 +468,14 @@ fn judge_renamed(
   old_name: &str,
   entry: Option<&str>,
   builds: &[u8],
-  with_std: bool,
+  full: bool,
 ) -> Value {
   let mut s2 = sources.clone();
   s2.insert(mname.to_string(), new_text.to_string());
-  let mut rec = json!({"parses": false, "diag": [], "back": "none", "back_text": "", "run": {}});
+  let mut rec = json!({"parses": false, "diag": [], "back": "none", "run": {}});
+  if full {
+    rec["text"] = json!(new_text);
+  }
   let mut ws2 = match Ws::new(&s2) {
     Ok(w) => w,
     Err(p) => {
@@ -437,7 +490,7 @@ fn judge_renamed(
     Err(p) => rec["diag"] = json!([format!("panic: {p}")]),
   }
   if let Some(entry) = entry {
-    rec["run"] = run_text(&s2, entry, builds, with_std);
+    rec["run"] = run_text(&s2, entry, builds, false);
   }
   // rename back: the query position is found again in the new text
   let m2 = ws2.names[mname];
@@ -445,8 +498,10 @@ fn judge_renamed(
     None => rec["back"] = json!("fresh name not in the renamed text"),
     Some((l, c)) => match rename_at(&mut ws2, &m2, l, c, old_name) {
       Ok(Some(t)) => {
-        rec["back"] = json!("ok");
-        rec["back_text"] = json!(t);
+        rec["back"] = json!(digest(&t));
+        if full {
+          rec["back_text"] = json!(t);
+        }
       }
       Ok(None) => rec["back"] = json!("refused"),
       Err(p) => rec["back"] = json!(format!("panic: {p}")),
@@ -465,19 +520,24 @@ fn std_tuples() -> String {
   srcs.iter().find(|(m, _)| m.pretty_print(&heap) == "std.tuples").map(|(_, t)| t.clone()).expect("std.tuples")
 }
 
-pub fn observe_tree(t: &Value, builds: &[u8], do_run: bool) -> Value {
+/// One record per structure (schema: spec/ScopeTrace.tla).  `full` adds the texts (replay / diagnosis).
+pub fn observe_tree(t: &Value, builds: &[u8], do_run: bool, full: bool) -> Value {
   let r = render(t);
   let mname = "M";
   let mut sources = BTreeMap::new();
   sources.insert(mname.to_string(), r.text.clone());
   // tuples are instances of std.tuples.Pair
   sources.insert("std.tuples".to_string(), std_tuples());
-  let mut rec = json!({"t": t, "text": r.text, "nocc": r.occs.len()});
+  let mut rec = json!({"t": t, "nocc": r.occs.len(), "accepted": false, "diag": [], "fmt": "none", "run": {},
+                       "occ": [], "ren": [], "panics": []});
+  if full {
+    rec["text"] = json!(r.text);
+  }
+  let mut panics: Vec<String> = vec![];
   let mut ws = match Ws::new(&sources) {
     Ok(w) => w,
     Err(p) => {
-      rec["panic"] = json!(p);
-      rec["accepted"] = json!(false);
+      rec["panics"] = json!([format!("ServerState::new: {p}")]);
       return rec;
     }
   };
@@ -486,11 +546,20 @@ pub fn observe_tree(t: &Value, builds: &[u8], do_run: bool) -> Value {
   rec["accepted"] = json!(diag.is_empty());
   rec["diag"] = json!(diag);
   if !diag.is_empty() {
+    // the property quantifies over accepted programs
     return rec;
   }
   // the formatted original: rename returns re-printed text, so this is what renaming back must restore
-  let fmt = guarded(|| rewrite::format_entire_document(&ws.state, &m)).ok().flatten().unwrap_or_default();
-  rec["fmt"] = json!(fmt);
+  match guarded(|| rewrite::format_entire_document(&ws.state, &m)) {
+    Ok(Some(fmt)) => {
+      rec["fmt"] = json!(digest(&fmt));
+      if full {
+        rec["fmt_text"] = json!(fmt);
+      }
+    }
+    Ok(None) => rec["fmt"] = json!("refused"),
+    Err(p) => panics.push(format!("format_entire_document: {p}")),
+  }
   if do_run {
     rec["run"] = run_text(&sources, mname, builds, false);
   }
@@ -502,39 +571,31 @@ pub fn observe_tree(t: &Value, builds: &[u8], do_run: bool) -> Value {
     let last = o.col + o.len - 1;
     let mut oj = json!({
       "n": o.name, "loc": [o.line, o.col, o.line, o.col + o.len],
-      "def": def_at(&ws, &m, o.line, o.col), "def2": def_at(&ws, &m, o.line, last),
-      "refs": refs_at(&ws, &m, o.line, o.col), "refs2": refs_at(&ws, &m, o.line, last),
+      // asked at the first and at the last character of the identifier
+      "def": def_at(&ws, &m, o.line, o.col, &mut panics), "def2": def_at(&ws, &m, o.line, last, &mut panics),
+      "refs": refs_at(&ws, &m, o.line, o.col, &mut panics), "refs2": refs_at(&ws, &m, o.line, last, &mut panics),
+      "ren": 0,
     });
     match rename_at(&mut ws, &m, o.line, last, FRESH) {
       Ok(Some(nt)) => {
         let k = match texts.iter().position(|x| *x == nt) {
           Some(k) => k,
           None => {
-            judged.push(judge_renamed(&sources, mname, &nt, &o.name, if do_run { Some(mname) } else { None }, builds, false));
+            judged.push(judge_renamed(&sources, mname, &nt, &o.name, if do_run { Some(mname) } else { None }, builds, full));
             texts.push(nt);
             texts.len() - 1
           }
         };
         oj["ren"] = json!(k + 1);
       }
-      Ok(None) => oj["ren"] = json!(0),
-      Err(p) => {
-        oj["ren"] = json!(0);
-        oj["ren_panic"] = json!(p);
-      }
+      Ok(None) => {}
+      Err(p) => panics.push(format!("rename({},{}): {p}", o.line, last)),
     }
     occs.push(oj);
   }
-  // keep the record small: a renamed-back text equal to the formatted original is not repeated
-  for (j, t) in judged.iter_mut().zip(texts.iter()) {
-    j["back_eq"] = json!(j["back"] == "ok" && j["back_text"].as_str() == Some(fmt.as_str()));
-    if j["back_eq"] == json!(true) {
-      j["back_text"] = json!("");
-    }
-    j["text"] = json!(t);
-  }
   rec["occ"] = json!(occs);
   rec["ren"] = json!(judged);
+  rec["panics"] = json!(panics);
   rec
 }
 
@@ -544,6 +605,7 @@ pub fn run(args: &[String]) {
   let out = arg(args, "--out").expect("--out");
   let builds: Vec<u8> = arg_or(args, "--builds", "0,31").split(',').map(|b| b.trim().parse().unwrap()).collect();
   let do_run = !flag(args, "--no-run");
+  let full = flag(args, "--full");
   let mut f = std::io::BufWriter::new(std::fs::File::create(&out).unwrap());
   let (mut n, mut accepted, mut occs, mut renames) = (0usize, 0usize, 0usize, 0usize);
   for line in input.lines() {
@@ -553,10 +615,9 @@ pub fn run(args: &[String]) {
     let v: Value = serde_json::from_str(line).unwrap();
     // a line is either the structure itself or {"id":.., "t": structure}
     let t = if v.get("t").is_some() { v["t"].clone() } else { v.clone() };
-    let mut rec = observe_tree(&t, &builds, do_run);
-    if let Some(id) = v.get("id") {
-      rec["id"] = id.clone();
-    }
+    // {"run": false} on a line: navigation and rename only, no compile-and-run
+    let mut rec = observe_tree(&t, &builds, do_run && v.get("run").and_then(|x| x.as_bool()).unwrap_or(true), full);
+    rec["id"] = v.get("id").cloned().unwrap_or(json!(n + 1));
     n += 1;
     if rec["accepted"] == json!(true) {
       accepted += 1;
@@ -572,11 +633,13 @@ pub fn run(args: &[String]) {
 pub fn show(args: &[String]) {
   silence_panics();
   let t: Value = serde_json::from_str(&arg(args, "--tree").expect("--tree")).unwrap();
-  let rec = observe_tree(&t, &[0], true);
+  let t = if t.get("t").is_some() { t["t"].clone() } else { t };
+  let rec = observe_tree(&t, &[0], true, true);
   println!("{}", rec["text"].as_str().unwrap());
   let mut r = rec.clone();
-  r["text"] = json!("");
-  r["fmt"] = json!("");
+  for k in ["text", "fmt_text", "t"] {
+    r.as_object_mut().unwrap().remove(k);
+  }
   println!("{}", serde_json::to_string_pretty(&r).unwrap());
 }
 
@@ -587,7 +650,7 @@ pub fn show(args: &[String]) {
 #[derive(Clone)]
 struct RealOcc {
   loc: Location,
-  /// "param" | "pat" | "lam" (binding positions) | "use"
+  /// "param" | "pat" | "lam" | "sig" (binding positions) | "use"
   kind: &'static str,
 }
 
@@ -698,12 +761,23 @@ impl Walker<'_> {
   }
   fn module(&mut self, m: &Module<()>) {
     for t in &m.toplevels {
-      if let Toplevel::Class(c) = t {
-        for mem in &c.members.members {
-          for p in mem.decl.parameters.parameters.iter() {
-            self.occs.push(RealOcc { loc: p.name.loc, kind: "param" });
+      match t {
+        Toplevel::Class(c) => {
+          for mem in &c.members.members {
+            for p in mem.decl.parameters.parameters.iter() {
+              self.occs.push(RealOcc { loc: p.name.loc, kind: "param" });
+            }
+            self.expr(&mem.body);
           }
-          self.expr(&mem.body);
+        }
+        // the parameters of a method signature (no body, so no uses): navigation is recorded; they are
+        // not renamed (rename returns the document unchanged for them, which the property allows)
+        Toplevel::Interface(i) => {
+          for mem in &i.members.members {
+            for p in mem.parameters.parameters.iter() {
+              self.occs.push(RealOcc { loc: p.name.loc, kind: "sig" });
+            }
+          }
         }
       }
     }
@@ -722,8 +796,13 @@ fn text_at(text: &str, l: &Location) -> String {
     .to_string()
 }
 
-/// One record per module: every local-variable occurrence with its name, kind, definition and
-/// references (as occurrence locations), and for a seeded sample of the bindings the rename round trip.
+/// One record per module (schema: spec/ScopeTrace.tla, the `Real*` invariants): every
+/// local-variable occurrence (parameters, pattern variables, lambda parameters, uses; not `this`)
+/// in text order with its name, kind, and the answers translated to occurrence indices
+/// (`d`: index of the definition, 0 = no answer / not an occurrence; `r`: indices of the references,
+/// `ru`: how many reference locations are not occurrences), and for a seeded sample of the
+/// bindings the rename round trip.
+#[allow(clippy::too_many_arguments)]
 pub fn observe_module(
   ws: &mut Ws,
   sources: &BTreeMap<String, String>,
@@ -731,8 +810,10 @@ pub fn observe_module(
   origin: &str,
   max_renames: usize,
   rng: &mut Rng,
-  run_entry: Option<(&str, bool)>,
+  run_entry: Option<&str>,
+  base_run: &Value,
   builds: &[u8],
+  full: bool,
 ) -> Value {
   let text = sources[mname].clone();
   let m = ws.names[mname];
@@ -745,42 +826,49 @@ pub fn observe_module(
   w.module(&parsed);
   let mut occs = w.occs;
   occs.sort_by_key(|o| (o.loc.start.0, o.loc.start.1));
-  let mut rec = json!({"origin": origin, "module": mname, "nocc": occs.len()});
+  let mut panics: Vec<String> = vec![];
+  let index: HashMap<(u32, u32, u32, u32), usize> =
+    occs.iter().enumerate().map(|(i, o)| ((o.loc.start.0, o.loc.start.1, o.loc.end.0, o.loc.end.1), i + 1)).collect();
+  let idx = |v: &Value| -> usize {
+    let a: Vec<i64> = v.as_array().map(|a| a.iter().map(|x| x.as_i64().unwrap_or(-9)).collect()).unwrap_or_default();
+    if a.len() != 4 || a[0] < 0 {
+      return 0;
+    }
+    index.get(&(a[0] as u32, a[1] as u32, a[2] as u32, a[3] as u32)).copied().unwrap_or(0)
+  };
   let mut oj = vec![];
   for o in &occs {
     let (l, c) = (o.loc.start.0, o.loc.start.1);
+    let def = def_at(ws, &m, l, c, &mut panics);
+    let refs = refs_at(ws, &m, l, c, &mut panics);
+    let ri: Vec<usize> = refs.as_array().unwrap().iter().map(&idx).collect();
+    let mut known: Vec<usize> = ri.iter().copied().filter(|x| *x > 0).collect();
+    known.sort();
     oj.push(json!({
       "n": text_at(&text, &o.loc), "kind": o.kind, "loc": loc_json(&o.loc),
-      "def": def_at(ws, &m, l, c), "refs": refs_at(ws, &m, l, c),
+      "d": idx(&def), "r": known, "ru": ri.iter().filter(|x| **x == 0).count(), "rn": ri.len(),
     }));
   }
-  // names of every location mentioned by an answer (so that the specification can compare names)
-  let mut names_at = serde_json::Map::new();
-  for o in &oj {
-    let mut all = vec![o["def"].clone()];
-    all.extend(o["refs"].as_array().unwrap().iter().cloned());
-    for l in all {
-      if let Some(a) = l.as_array() {
-        if a.len() == 4 {
-          let loc = Location {
-            module_reference: m,
-            start: Position(a[0].as_u64().unwrap() as u32, a[1].as_u64().unwrap() as u32),
-            end: Position(a[2].as_u64().unwrap() as u32, a[3].as_u64().unwrap() as u32),
-          };
-          names_at.insert(l.to_string(), json!(text_at(&text, &loc)));
-        }
+  let mut rec = json!({"origin": origin, "module": mname, "nocc": occs.len(), "occ": oj});
+  // rename round trips on a sample of the bindings
+  let mut fmt_text: Option<String> = None;
+  match guarded(|| rewrite::format_entire_document(&ws.state, &m)) {
+    Ok(Some(fmt)) => {
+      rec["fmt"] = json!(digest(&fmt));
+      if full {
+        rec["fmt_text"] = json!(fmt);
       }
+      fmt_text = Some(fmt);
+    }
+    Ok(None) => rec["fmt"] = json!("refused"),
+    Err(p) => {
+      rec["fmt"] = json!("none");
+      panics.push(format!("format_entire_document: {p}"));
     }
   }
-  let _ = names_at; // the names are compared by the harness-independent rule below instead
-  rec["occ"] = json!(oj);
-  // rename round trips on a sample of the bindings
-  let fmt = guarded(|| rewrite::format_entire_document(&ws.state, &m)).ok().flatten().unwrap_or_default();
-  let diag0 = ws.diagnostics().unwrap_or_else(|p| vec![format!("panic: {p}")]);
-  rec["diag"] = json!(diag0);
-  let bind_idx: Vec<usize> = (0..occs.len()).filter(|i| occs[*i].kind != "use").collect();
+  rec["diag"] = json!(ws.diagnostics().unwrap_or_else(|p| vec![format!("panic: {p}")]));
+  let mut pool: Vec<usize> = (0..occs.len()).filter(|i| occs[*i].kind != "use" && occs[*i].kind != "sig").collect();
   let mut chosen: Vec<usize> = vec![];
-  let mut pool = bind_idx.clone();
   while chosen.len() < max_renames && !pool.is_empty() {
     let k = rng.below(pool.len());
     chosen.push(pool.swap_remove(k));
@@ -794,40 +882,58 @@ pub fn observe_module(
     }
     let o = &occs[i];
     let old = text_at(&text, &o.loc);
-    let mut r = json!({"i": i + 1, "n": old});
+    let mut r = json!({"i": i + 1, "n": old, "ok": false, "b": base_run, "j": {"parses": false, "diag": [], "back": "none", "run": {}}});
     match rename_at(ws, &m, o.loc.start.0, o.loc.start.1, FRESH) {
       Ok(Some(nt)) => {
         r["ok"] = json!(true);
-        let j = judge_renamed(sources, mname, &nt, &old, run_entry.map(|x| x.0), builds, run_entry.map(|x| x.1).unwrap_or(false));
-        let back_eq = j["back"] == "ok" && j["back_text"].as_str() == Some(fmt.as_str());
-        r["j"] = j;
-        r["j"]["back_eq"] = json!(back_eq);
-        r["j"]["back_text"] = json!("");
+        r["j"] = judge_renamed(sources, mname, &nt, &old, run_entry, builds, full);
         // the renamed document, for the behaviour runs the check performs itself on large corpora
         r["text"] = json!(nt);
       }
-      Ok(None) => r["ok"] = json!(false),
-      Err(p) => {
-        r["ok"] = json!(false);
-        r["panic"] = json!(p);
-      }
+      Ok(None) => {}
+      Err(p) => panics.push(format!("rename({},{}): {p}", o.loc.start.0, o.loc.start.1)),
     }
     rens.push(r);
   }
+  // rename returns re-printed text.  When re-printing alone already changes what the checker (or a
+  // run) says about the module, that is the formatter's doing (property C08), not rename's: the
+  // formatted original is observed too -- always for generated programs, otherwise when a rename
+  // produced other diagnostics -- so that the specification can tell the two apart.
+  let some_rename_differs = rens.iter().any(|r| r["ok"] == json!(true) && (r["j"]["parses"] != json!(true) || r["j"]["diag"] != rec["diag"]));
+  rec["run"] = base_run.clone();
+  rec["fmt_diag"] = rec["diag"].clone();
+  rec["fmt_run"] = base_run.clone();
+  rec["fmt_observed"] = json!(false);
+  if let (true, Some(fmt)) = (run_entry.is_some() || some_rename_differs, &fmt_text) {
+    let mut s2 = sources.clone();
+    s2.insert(mname.to_string(), fmt.clone());
+    if let Ok(ws2) = Ws::new(&s2) {
+      rec["fmt_observed"] = json!(true);
+      rec["fmt_diag"] = json!(ws2.diagnostics().unwrap_or_else(|p| vec![format!("panic: {p}")]));
+      if let Some(entry) = run_entry {
+        rec["fmt_run"] = run_text(&s2, entry, builds, false);
+      }
+    }
+  }
   rec["ren"] = json!(rens);
+  rec["panics"] = json!(panics);
   rec
 }
 
-/// `vh scope-real --out F [--gen PROGRAMS.ndjson] [--max-renames N] [--seed S] [--modules tests.A,tests.B] [--run-small]`
+/// `vh scope-real --out F [--no-repo] [--gen PROGRAMS.ndjson] [--max-renames N] [--seed S] [--modules tests.A,tests.B]`
 pub fn real(args: &[String]) {
   silence_panics();
   let out = arg(args, "--out").expect("--out");
   let max_renames: usize = arg_or(args, "--max-renames", "3").parse().unwrap();
-  let mut rng = Rng::new(arg_or(args, "--seed", "1").parse().unwrap());
+  let seed: u64 = arg_or(args, "--seed", "1").parse().unwrap();
+  // the sample of bindings renamed in a module depends on the seed and the module only (replayable alone)
+  let rng_for = |name: &str| Rng::new(seed ^ name.bytes().fold(0xcbf29ce484222325u64, |h, b| (h ^ b as u64).wrapping_mul(0x100000001b3)));
   let builds: Vec<u8> = arg_or(args, "--builds", "31").split(',').map(|b| b.trim().parse().unwrap()).collect();
   let only: Option<Vec<String>> = arg(args, "--modules").map(|s| s.split(',').map(|x| x.to_string()).collect());
+  let full = flag(args, "--full");
   let mut f = std::io::BufWriter::new(std::fs::File::create(&out).unwrap());
   let (mut modules, mut occs, mut renames) = (0usize, 0usize, 0usize);
+  let mut skipped = 0usize;
   let mut emit = |rec: Value, f: &mut std::io::BufWriter<std::fs::File>| {
     modules += 1;
     occs += rec["occ"].as_array().map(|a| a.len()).unwrap_or(0);
@@ -845,7 +951,8 @@ pub fn real(args: &[String]) {
           continue;
         }
       }
-      let rec = observe_module(&mut ws, &sources, &n, &format!("repo:{n}"), max_renames, &mut rng, None, &builds);
+      // behaviour of the whole corpus is run by the check (progcommon.run_programs) on the `text`s
+      let rec = observe_module(&mut ws, &sources, &n, &format!("repo:{n}"), max_renames, &mut rng_for(&n), None, &json!({}), &builds, full);
       emit(rec, &mut f);
     }
   }
@@ -870,18 +977,23 @@ pub fn real(args: &[String]) {
         Ok(w) => w,
         Err(_) => continue,
       };
-      if !ws.diagnostics().map(|d| d.is_empty()).unwrap_or(false) {
-        continue; // the property quantifies over accepted programs
+      let d0 = ws.diagnostics().unwrap_or_else(|p| vec![format!("panic: {p}")]);
+      if !d0.is_empty() {
+        // the property quantifies over accepted programs
+        skipped += 1;
+        if flag(args, "--verbose") {
+          eprintln!("skipped {}: {:?}", p["origin"], d0);
+        }
+        continue;
       }
       let origin = format!("gen:{}", p["origin"].as_str().unwrap_or("?"));
       let base = run_text(&all, &entry, &builds, false);
       for n in user.keys() {
-        let mut rec = observe_module(&mut ws, &all, n, &origin, max_renames, &mut rng, Some((&entry, false)), &builds);
-        rec["run"] = base.clone();
+        let rec = observe_module(&mut ws, &all, n, &origin, max_renames, &mut rng_for(&format!("{origin}/{n}")), Some(&entry), &base, &builds, full);
         emit(rec, &mut f);
       }
     }
   }
   f.flush().unwrap();
-  println!("{}", json!({"modules": modules, "occurrences": occs, "renames": renames}));
+  println!("{}", json!({"modules": modules, "occurrences": occs, "renames": renames, "programs_not_accepted": skipped}));
 }
